@@ -38,7 +38,8 @@ PowP(a, n) == IF n = 0 THEN 1
 Inv(a) == IF D = 1 THEN PowP(a, P - 2) ELSE InvTab[a]
 Div(a, b) == Mul(a, Inv(b))
 RECURSIVE Pow(_, _)
-Pow(a, n) == IF n = 0 THEN 1 ELSE Mul(a, Pow(a, n - 1))
+Pow(a, n) == IF n = 0 THEN 1                                   \* by squaring: evaluation depth log n
+            ELSE LET h == Pow(a, n \div 2)  hh == Mul(h, h) IN IF n % 2 = 1 THEN Mul(hh, a) ELSE hh
 \* embedding of an integer (mixing in integers = converting first): n mod P as a constant polynomial
 \* for extension fields finfields converts an int by reading it base P
 OfInt(n) == n % Q
